@@ -141,11 +141,15 @@ def prop(case):
         dss = [d for d in case["datasets"] if d["group"] == gname]
         for i, d1 in enumerate(dss):
             for d2 in dss[i + 1:]:
-                for gv in set(d1["global_axis"]) & set(d2["global_axis"]):
-                    c1, c2 = result.data[d1["label"]].clp, result.data[d2["label"]].clp
-                    for b in set(map(str, c1.coords["clp_label"].values)) & set(map(str, c2.coords["clp_label"].values)):
-                        a1, a2 = float(c1.sel({"global": gv, "clp_label": b})), float(c2.sel({"global": gv, "clp_label": b}))
-                        check(a1 == a2, "result.linked_clp_identical", lambda: f"{d1['label']},{d2['label']}@{gv} {b}: {a1} vs {a2}")
+                t1, t2 = r["datasets"][d1["label"]]["aligned_targets"], r["datasets"][d2["label"]]["aligned_targets"]
+                for i1, g1 in enumerate(d1["global_axis"]):
+                    for i2, g2 in enumerate(d2["global_axis"]):
+                        if t1[i1] != t2[i2]:
+                            continue
+                        c1, c2 = result.data[d1["label"]].clp, result.data[d2["label"]].clp
+                        for b in set(map(str, c1.coords["clp_label"].values)) & set(map(str, c2.coords["clp_label"].values)):
+                            a1, a2 = float(c1.sel({"global": g1, "clp_label": b})), float(c2.sel({"global": g2, "clp_label": b}))
+                            check(a1 == a2, "result.linked_clp_identical", lambda: f"{d1['label']}@{g1},{d2['label']}@{g2} {b}: {a1} vs {a2}")
     f = features(case)
     labs = [d["label"] for d in case["datasets"]]
     confus = any(a != b and a in b for a in labs for b in labs)
@@ -180,8 +184,11 @@ PROPERTY = Property(
         "transposed storage, linked single-dataset index, dataset scale}."
     ),
     subs=[
-        Sub("neutral", prop=prop, strategy=lambda: schemes.fit_cases(labels="neutral"), budget={"quick": 500, "thorough": 30000}),
-        Sub("confusable", prop=prop, strategy=lambda: schemes.fit_cases(labels="confusable"), budget={"quick": 500, "thorough": 30000}),
+        Sub("neutral", prop=prop, strategy=lambda: schemes.fit_cases(labels="neutral"), budget={"quick": 400, "thorough": 30000}),
+        Sub("confusable", prop=prop, strategy=lambda: schemes.fit_cases(labels="confusable"), budget={"quick": 400, "thorough": 30000}),
+        Sub("tolerance", prop=prop, strategy=lambda: schemes.fit_cases(labels="confusable", link_tolerance=True, allow_full=False).filter(
+            lambda c: c["clp_link_tolerance"] > 0), budget={"quick": 250, "thorough": 20000},
+            doc="linked groups with clp_link_tolerance > 0 and all three link methods (alignment by the C09 reference model)"),
     ],
     assumptions=[
         "reference objective trusted (vlib/oracle/refobjective.py)",
